@@ -57,12 +57,31 @@ KNOWN_RACES = [
               "parsed source, and cue/format.Node writes relative positions into comment nodes (internal/pretty/style.setCommentRelPos), so formatting "
               "two Syntax results of one shared value concurrently races; minimal witness corpus/C19/f13_doc_comment_format.cue "
               "(`// doc / f0: 1 / let L1 = 8 / f6: L1 + 1`, format.Node(v.Syntax(cue.All(), cue.Docs(true), cue.Attributes(true))) from 8 goroutines)")},
+    {"id": "F14",
+     "match": lambda rep: "cue/errors.appendToList()" in rep and "adt.CombineErrors()" in rep,
+     "text": ("data race on the UNCHANGED tree [finding F14]: Value.Validate accumulates errors with adt.(*validator).add -> adt.CombineErrors -> "
+              "errors.Append, which (as its doc comment warns) appends IN PLACE when its first argument is already a list; after the first error "
+              "v.err IS the *Bottom of the shared value (CombineErrors returns b itself when a == nil), so the second error is appended to the error "
+              "list owned by the shared vertex; minimal witness corpus/C19/f14_validate_append.cue (a field with two errors plus a second failing field, "
+              "v.Validate(...) from 8 goroutines)")},
 ]
+
+
+_LISTED = None
+
+
+def listed_ids():
+    """Only findings listed in known_findings.json (status known) may be reported as KNOWN-FINDING;
+    a race of a recognised but UNLISTED class is a violation like any other."""
+    global _LISTED
+    if _LISTED is None:
+        _LISTED = {k["id"] for k in vlib.known_findings("C19") if k.get("status") == "known"}
+    return _LISTED
 
 
 def known_race(report):
     for k in KNOWN_RACES:
-        if k["match"](report):
+        if k["match"](report) and k["id"] in listed_ids():
             return k["id"]
     return None
 
@@ -416,6 +435,12 @@ def analyse_explore(ctx, results, stats, known_hits):
                 stats["samples"].append({"kind": r["Kind"], "goroutines": r["G"], "program": r["Program"],
                                          "calls": r["Calls"][:12], "concurrent_executions": r["Executed"], "result": "all equal to baseline"})
             for m in (r.get("Mismatches") or []):
+                if m["Call"].startswith("fields patterns"):
+                    # the F11(a) site itself: iterating Fields(cue.Patterns(true)) while another goroutine finalizes the
+                    # shared pattern-constraint vertex reads a half-evaluated vertex (kind `_`)
+                    known_hits.append(("F11", "exploration round=%d seed=%d kind=%s: WRONG RESULT of `%s`" % (r["Round"], r["Seed"], r["Kind"], m["Call"])))
+                    stats["mismatches_known_f11"] += 1
+                    continue
                 stats["mismatches"] += 1
                 if stats["mismatches"] > 6:
                     break
@@ -461,7 +486,7 @@ def new_stats():
     return {"rounds": 0, "kinds": collections.Counter(), "executed": 0, "sequential": 0, "goroutines": collections.Counter(),
             "calls_per_program": [], "baseline_error_results": 0, "unstable": 0, "unstable_samples": [], "features": collections.Counter(),
             "call_types": collections.Counter(), "programs": set(), "samples": [], "mismatches": 0, "panics": 0, "race_reports": 0,
-            "unknown_race_reports": 0, "timeouts": 0, "crashes": 0, "race_sigs": set()}
+            "unknown_race_reports": 0, "timeouts": 0, "crashes": 0, "race_sigs": set(), "mismatches_known_f11": 0}
 
 
 def run(ctx):
@@ -570,7 +595,16 @@ def run(ctx):
         wraces_total += len(wraces)
         mm = re.search(r"mismatches=(\d+)", wout)
         nm_mism = int(mm.group(1)) if mm else -1
-        corpus_info.append({"file": nm, "calls": calls, "race_reports": len(wraces), "result_mismatches": nm_mism, "exit": wrc})
+        mk = re.search(r"(?m)^// known: (\S+)", src)
+        known_id = mk.group(1) if mk else None
+        fm = re.search(r"(?m)^first-mismatch (.*)$", wout)
+        corpus_info.append({"file": nm, "calls": calls, "race_reports": len(wraces), "result_mismatches": nm_mism, "exit": wrc,
+                            "known": known_id, "first_mismatch": fm.group(1)[:400] if fm else None})
+        if known_id and known_id in listed_ids() and wrc == 0 and nm_mism > 0:
+            # the witness of a known finding may also return WRONG results (F11 does): part of the finding
+            w_known.append((known_id, "corpus/C19/%s: %d concurrent results differ from the sequential baseline (%s)" % (
+                nm, nm_mism, fm.group(1)[:300] if fm else "")))
+            nm_mism = 0
         for d, rep in wraces:
             if is_known_race(rep):
                 w_known.append((known_race(rep), "corpus/C19/" + nm))
@@ -626,7 +660,7 @@ def run(ctx):
             "call_types": dict(stats["call_types"]), "program_features": dict(stats["features"]),
             "baseline_results_that_are_errors_or_missing": stats["baseline_error_results"],
             "calls_unstable_sequentially_excluded": stats["unstable"], "unstable_samples": stats["unstable_samples"],
-            "result_mismatches": stats["mismatches"], "panics": stats["panics"], "timeouts": stats["timeouts"], "crashes": stats["crashes"],
+            "result_mismatches": stats["mismatches"], "result_mismatches_of_known_finding_F11": stats["mismatches_known_f11"], "panics": stats["panics"], "timeouts": stats["timeouts"], "crashes": stats["crashes"],
             "race_reports": stats["race_reports"] + wraces_total, "race_reports_of_known_class": len(known_hits) + len(w_known),
             "race_reports_unknown": stats["unknown_race_reports"],
             "corpus_witnesses": corpus_info,
